@@ -11,6 +11,10 @@
 //	B  the exported methods Contains / Equal / Validate / Sort / String on constructed YangRange values.
 //	C  the eight built-in range variables and the decimal64 base ranges.
 //
+// The last restriction of chains with a parent is run once more in other placements: union members,
+// the type of a deviate, below an imported typedef whose module is replaced between two runs, and next
+// to every other substatement a type statement can carry (siblings.go).
+//
 // Every Go outcome of family A is also handed to the executable specification (driver op
 // spec.step: the outcome must denote exactly the written set, be sorted, disjoint and coalesced,
 // lie inside the parent's set, and invalid restrictions must be rejected), every outcome of
@@ -1944,9 +1948,9 @@ func main() {
 		{"malformed", genMalformed(f.Rand(3), nr), q(1, 2)},
 	}
 	placedCases, placedRejected := map[string]int64{}, map[string]int64{}
-	sibRot, sibStride := 0, q(2, 1)
+	sibRot, sibStride := 0, 2
 	sibPerName := map[string]int64{}
-	sibSeconds, sibFatal := 0.0, int64(0)
+	sibSeconds, sibFatal, sibOther := 0.0, int64(0), int64(0)
 	distinct := lib.NewDistinct()
 	var nontriv, evals int64
 	okSteps, errSteps := int64(0), int64(0)
@@ -2164,7 +2168,7 @@ func main() {
 					goIdx[k] = i
 				}
 			}
-			sf, rejected, fatal := siblingGroup(f, sec.name, scs, goIdx, ans, goOuts)
+			sf, rejected, fatal, otherErr := siblingGroup(f, sec.name, scs, goIdx, ans, goOuts)
 			sibSeconds += time.Since(tS).Seconds()
 			found = append(found, sf...)
 			for _, pc := range scs {
@@ -2176,6 +2180,7 @@ func main() {
 			placedCases["sibling"] += int64(len(scs))
 			placedRejected["sibling"] += rejected
 			sibFatal += fatal
+			sibOther += otherErr
 			evals += int64(len(scs))
 			res.Distribution["sibling_cases_"+sec.name] = len(scs)
 		}
@@ -2269,6 +2274,7 @@ func main() {
 	res.Distribution["seconds_sibling_placements"] = float64(int(sibSeconds*10)) / 10
 	res.Distribution["sibling_placements_with_a_sibling_that_stops_the_resolution"] = sibFatal
 	res.Distribution["sibling_placements_with_such_a_sibling_accepted"] = sibFatalAccepted
+	res.Distribution["sibling_placements_inadmissible_rejected_by_the_error_of_an_erroneous_sibling_only"] = sibOther
 	for name, n := range sibPerName {
 		res.Distribution["sibling_"+name] = n
 	}
@@ -2279,7 +2285,7 @@ func main() {
 	res.Evaluations = evals
 	res.DistinctNontrivial = nontriv
 	res.Exhaustive = true
-	res.Rule = "restriction chains = (mode int|dec|len, base type or none, fraction-digits, list of restriction texts); exhaustive grids: all texts of 1 part (and of 2 and 3 parts over smaller sets) with bounds from {min, max, 0, -0, +-1, every integer type's limits and limits+-1, 2^63-1, 2^63, 2^64-1, 2^64} called directly and under each of the 8 integer types x 8 (thorough 12) earlier restrictions of it through YANG typedef chains; the same for lengths and for decimal64 at fraction-digits 1, 2, 17, 18 (thorough: 1..18); groups of chains that differ only in the interior of the parent (same outer bounds, same child text) resolved inside one module; literal-syntax tokens (white space incl. Unicode, base-0 literals, underscores, signs, keywords, 1..6 dots, empty parts) in all pairs; seeded random chains of depth 1..4, ordered random chains, random texts over the grammar's alphabet; every stride-th chain with a parent (all of the syntax tokens and random chains) is run once more with its last restriction placed on a member of a union whose earlier member is the unrestricted parent type (built-in or typedef; 2nd member, 3rd member, union inside a typedef, further member after it): error and range must be those of the plain placement; the same chains with the last restriction in the type of a deviate replace/add on a leaf or leaf-list of another module; chains of two or more steps with the earlier steps in an imported module that is replaced by a newer revision (with / without the restrictions) between two Process runs on the same Modules, the last restriction on a union member inside a typedef of the importing module: after the second run the outcome must be the one for the new parent; exported methods Contains/Equal/Validate/Sort/String on all lists of <= 2 parts over {0..4} (Contains: all pairs), over a signed universe with -0, over the 64-bit extremes at fd 0, 1, 18, all lists of 3 parts over {0..3}, random lists. Every Go outcome is compared with the model and judged by the executable specification. distinct_nontrivial = distinct inputs that have more than one part, a min/max keyword or more than one step (chains), or a list of more than one part (methods)"
+	res.Rule = "restriction chains = (mode int|dec|len, base type or none, fraction-digits, list of restriction texts); exhaustive grids: all texts of 1 part (and of 2 and 3 parts over smaller sets) with bounds from {min, max, 0, -0, +-1, every integer type's limits and limits+-1, 2^63-1, 2^63, 2^64-1, 2^64} called directly and under each of the 8 integer types x 8 (thorough 12) earlier restrictions of it through YANG typedef chains; the same for lengths and for decimal64 at fraction-digits 1, 2, 17, 18 (thorough: 1..18); groups of chains that differ only in the interior of the parent (same outer bounds, same child text) resolved inside one module; literal-syntax tokens (white space incl. Unicode, base-0 literals, underscores, signs, keywords, 1..6 dots, empty parts) in all pairs; seeded random chains of depth 1..4, ordered random chains, random texts over the grammar's alphabet; every stride-th chain with a parent (all of the syntax tokens and random chains) is run once more with its last restriction placed on a member of a union whose earlier member is the unrestricted parent type (built-in or typedef; 2nd member, 3rd member, union inside a typedef, further member after it): error and range must be those of the plain placement; the same chains with the last restriction in the type of a deviate replace/add on a leaf or leaf-list of another module; chains of two or more steps with the earlier steps in an imported module that is replaced by a newer revision (with / without the restrictions) between two Process runs on the same Modules, the last restriction on a union member inside a typedef of the importing module: after the second run the outcome must be the one for the new parent; sibling placements (siblings.go): the last restriction next to every other substatement a type statement can carry, before it and after it (pattern valid / invalid regexp / with modifier and messages / twice, openconfig-extensions:posix-pattern valid / invalid / twice / with a body / together with pattern, extensions of another module, of the own module, other extensions of openconfig-extensions, nested, without argument, with an unbound prefix, fraction-digits on a non-decimal type / repeated on a decimal typedef / written after the range, the other restriction kind admissible and inadmissible (length beside range, range beside length), enum, duplicate enum, bit, base known / unknown, path, require-instance valid / invalid, a member type), with substatements of its own (error-message, error-app-tag, description, reference, extensions, empty body), and its type statement next to units / default / description / reference / status / extensions of the enclosing typedef and units / default / mandatory / config / must / when / extensions of the enclosing leaf; each of these in a leaf, a typedef used by a leaf, a union member of a leaf, a union member inside a typedef, the type of a deviate replace, a leaf of a used grouping and a leaf-list inside a list: all combinations for the corpus chains, one combination (walking through the list) for every 2nd selected chain of the other sections, every case in a Modules value of its own; the outcome (error of the restriction's kind at the restriction's line, else the set read from the entry) must be the model's outcome for the same restriction against the same parent and satisfy the specification; next to a sibling that is in error itself (invalid regexp, duplicate enum, unknown base, fraction-digits on a non-decimal type, an inadmissible restriction of the other kind, require-instance that is not a boolean, a default that is not a number) an inadmissible restriction counts as rejected when any error is reported; next to a sibling that stops the resolution of the type statement (unbound extension prefix, repeated fraction-digits) an inadmissible restriction must still not pass without any error; exported methods Contains/Equal/Validate/Sort/String on all lists of <= 2 parts over {0..4} (Contains: all pairs), over a signed universe with -0, over the 64-bit extremes at fd 0, 1, 18, all lists of 3 parts over {0..3}, random lists. Every Go outcome is compared with the model and judged by the executable specification. distinct_nontrivial = distinct inputs that have more than one part, a min/max keyword or more than one step (chains), or a list of more than one part (methods)"
 	res.Write(f.Out)
 }
 
@@ -2353,6 +2359,12 @@ func replay(f *lib.Flags, d *lib.Driver) {
 		par := parentOfLast(uc.Case, chain)
 		a, _ := d.Ask(uc.Case.request())
 		g := run1(uc)
+		if n, byOther := sibNormalize(g, lastStep(a)); byOther {
+			fmt.Printf("note: go reports no error of the restriction itself but other errors of the statement (%s): counted as rejected\n", g)
+			g = n
+		} else {
+			g = n
+		}
 		in := describe(uc.Case)
 		in["placement"] = uc.placement()
 		_, mText, _, _ := sibTexts(uc)
